@@ -100,17 +100,30 @@ class Adts:
                 psegs = v['path'].split('::')
                 if v['path'] == head or _subseq(segs[:-1], psegs[:-1]) or _subseq(segs[1:-1], psegs[:-1]):
                     cands.append(v)
-        if len(cands) == 1:
-            return cands[0]
-        if len(cands) > 1:
-            # prefer exact / longest-prefix agreement
-            exact = [v for v in cands if v['path'] == head or v['path'].endswith('::' + head)]
+        def pick(cs):
+            if len(cs) == 1:
+                return cs[0]
+            exact = [v for v in cs if v['path'] == head or v['path'].endswith('::' + head)]
             if len(exact) == 1:
                 return exact[0]
-            full = [v for v in cands if _subseq(segs[:-1], v['path'].split('::')[:-1])]
-            if len(full) == 1:
-                return full[0]
+            nongen = [v for v in cs if '::generated::' not in v['path']]
+            if len(nongen) == 1:
+                return nongen[0]
             return None
+        nongen = [v for v in cands if '::generated::' not in v['path']]
+        if nongen:
+            return pick(cands)
+        # no (non-generated) candidate by path: re-exports across crates -> unique non-generated type with that name
+        allc = []
+        for t in self.tables:
+            for k, v in t.items():
+                if isinstance(v, dict) and v['path'].split('::')[-1] == last and v not in allc:
+                    allc.append(v)
+        ng = [v for v in allc if '::generated::' not in v['path']]
+        if len(ng) == 1:
+            return ng[0]
+        if not ng and cands:
+            return pick(cands)
         return None
 
     def variant_index(self, ty, name):
@@ -762,6 +775,8 @@ class Engine:
                     cands.append(n)
             elif span in pt[0]:
                 cands.append(n)
+        if not cands:
+            cands = [n for n in kids if self.fns[n].parse().ptypes and '{async fn body of' in self.fns[n].parse().ptypes[0]]
         if len(cands) != 1:
             raise MirError(f'coroutine body for {span} under {parent}: {cands}')
         return cands[0]
@@ -838,6 +853,9 @@ class Engine:
         """alts: [(cond|None, value | callable(s2)->value/PUSHED/Diverge/alts, effect(s2)|None)].
         Callables run on the (possibly cloned) state s2 and must translate captured objects with s2.tr(x)."""
         live = []
+        if len(alts) > 1:
+            fk = self.stats.setdefault('forksites', {}); fr_ = st.frames[-1]; key = f'{fr_.fn.name[-70:]}:{fr_.bb} call {fr_.fn.blocks[fr_.bb][-1][:70]}'
+            fk[key] = fk.get(key, 0) + 1
         for a in alts:
             cond = a[0]
             if cond is not None:
@@ -908,7 +926,8 @@ class Engine:
         while work:
             st = work.pop()
             if len(done) + len(work) > self.max_paths:
-                raise Inconclusive('path budget exhausted')
+                top = sorted(self.stats.get('forksites', {}).items(), key=lambda kv: -kv[1])[:8]
+                raise Inconclusive('path budget exhausted; top fork sites: ' + '; '.join(f'{v}x {k}' for k, v in top))
             try:
                 if st.kind is None:
                     self.run_path(st, work)
@@ -975,6 +994,9 @@ class Engine:
                         live.append((cnd, other))
                 if not live:
                     st.kind = 'infeasible'; return
+                if len(live) > 1:
+                    fk = self.stats.setdefault('forksites', {}); key = f'{fr.fn.name[-70:]}:{fr.bb} switch {stmts[-1][:60]}'
+                    fk[key] = fk.get(key, 0) + 1
                 for i, (cnd, tb) in enumerate(live):
                     s2 = st if i == len(live) - 1 else st.clone()
                     s2.pc.append(cnd); s2.frame().bb = tb
